@@ -4387,6 +4387,24 @@ CK_RV SoftHSM::AsymSignInit(CK_SESSION_HANDLE hSession, CK_MECHANISM_PTR pMechan
 			return CKR_MECHANISM_INVALID;
 	}
 
+	// Check that the class and type of the key fit the mechanism
+	CK_KEY_TYPE expectedKeyType = CKK_GOSTR3410;
+	if (isRSA)
+		expectedKeyType = CKK_RSA;
+	else if (isDSA)
+		expectedKeyType = CKK_DSA;
+#ifdef WITH_ECC
+	else if (isECDSA)
+		expectedKeyType = CKK_EC;
+#endif
+#ifdef WITH_EDDSA
+	else if (isEDDSA)
+		expectedKeyType = CKK_EC_EDWARDS;
+#endif
+	if (key->getUnsignedLongValue(CKA_CLASS, CKO_VENDOR_DEFINED) != CKO_PRIVATE_KEY ||
+	    key->getUnsignedLongValue(CKA_KEY_TYPE, CKK_VENDOR_DEFINED) != expectedKeyType)
+		return CKR_KEY_TYPE_INCONSISTENT;
+
 	AsymmetricAlgorithm* asymCrypto = NULL;
 	PrivateKey* privateKey = NULL;
 	if (isRSA)
@@ -5362,6 +5380,24 @@ CK_RV SoftHSM::AsymVerifyInit(CK_SESSION_HANDLE hSession, CK_MECHANISM_PTR pMech
 		default:
 			return CKR_MECHANISM_INVALID;
 	}
+
+	// Check that the class and type of the key fit the mechanism
+	CK_KEY_TYPE expectedKeyType = CKK_GOSTR3410;
+	if (isRSA)
+		expectedKeyType = CKK_RSA;
+	else if (isDSA)
+		expectedKeyType = CKK_DSA;
+#ifdef WITH_ECC
+	else if (isECDSA)
+		expectedKeyType = CKK_EC;
+#endif
+#ifdef WITH_EDDSA
+	else if (isEDDSA)
+		expectedKeyType = CKK_EC_EDWARDS;
+#endif
+	if (key->getUnsignedLongValue(CKA_CLASS, CKO_VENDOR_DEFINED) != CKO_PUBLIC_KEY ||
+	    key->getUnsignedLongValue(CKA_KEY_TYPE, CKK_VENDOR_DEFINED) != expectedKeyType)
+		return CKR_KEY_TYPE_INCONSISTENT;
 
 	AsymmetricAlgorithm* asymCrypto = NULL;
 	PublicKey* publicKey = NULL;
